@@ -32,6 +32,8 @@ REQUIRED_REFS = {"tie_prev", "tie_next", "slur_starts", "slur_stops", "tuplet_st
 
 
 def run(ctx):
+    from ..rules import generic as _G11
+    _G11.rule_F11(ctx, ['partitura.score'], 'C09')
     prog = ctx.prog
     OW.rule_F1(ctx, ENTRIES, "unfolding entry points")
     cv = prog.func(f"{S}:ScoreVariant.create_variant_part", "EXCL")
